@@ -288,7 +288,7 @@ PROPS["C18"] = dict(
     level_note="NaN/Inf samples are outside the statement's list and not generated; quick tier goes to 60 s, thorough to 5 minutes",
     rule="one case = one (configuration, signal, length, encoding, calling pattern); non-trivial = frames were produced; distinct = those parameters.",
     stages=[dict(harness="h_c18", flavor="asan", quick=240, thorough=3000), dict(harness="h_c18", flavor="fast", quick=400, thorough=6000, name="h_c18_fast")],
-    floor=dict(min_evaluations=200, min_distinct=100, counters={"fe_runs": 50, "fe_float32_out_of_range": 5, "decoder_runs": 100, "frames_rescored": 1000,
+    floor=dict(min_evaluations=200, min_distinct=100, counters={"fe_runs": 30, "feat_runs": 30, "feat_runs_with_varnorm": 8, "feat_runs_on_digital_silence": 5, "fe_float32_out_of_range": 3, "decoder_runs": 100, "frames_rescored": 1000,
                                                               "cmn_roundtrips_checked": 50, "normal_utterances_afterwards": 50}),
     assumptions=[A_SAN, A_GEN],
 )
